@@ -129,7 +129,8 @@ def histories(draw):
         elif kind == "append":
             text = forms[cur]["delim"] is not None
             op.update(via=draw(st.sampled_from(["fn", "fn", "io", "handle", "handle_keep"])),
-                      chunk=draw(_chunk(text)), pass_delim=draw(st.booleans()))
+                      chunk=draw(_chunk(text)), pass_delim=draw(st.booleans()),
+                      other_delim=draw(st.sampled_from([False, False, True])))
             if not exists:
                 op["form"] = cur = 0
                 op["header"] = draw(H.headers())
@@ -458,6 +459,10 @@ def check_history(case, ctx):
                 if hdr is not None:
                     kw["header"] = hdr
                 dk = {"delim": form["delim"]} if text and (creating or op.get("pass_delim")) else {}
+                if not creating and op.get("pass_delim") and op.get("other_delim"):
+                    # "if the file already exists ... the delim= keyword is ignored": a delim that does not
+                    # describe the file (another character; any character for a binary file) changes nothing
+                    dk = {"delim": "|" if form["delim"] != "|" else ";"}
                 via = op["via"]
                 if via == "fn":
                     sfile.write(fname, arg, append=True, **kw, **dk)
